@@ -599,6 +599,20 @@ theorem clearing_stopCheck_heals_without_success :
     ((stopCheck 1 0 w1).words 0).active = true := by
   decide
 
+/-- why exactness is stated for an address that ONE cluster lists (`lifecycle_threshold_exact`): in the code as it is, two
+clusters' session checkers on one address write the same condition with their own counters and an `==` threshold test.
+Thresholds 1/1: cluster 0's check fails (host marked), cluster 1's check succeeds (host healed — by ITS threshold), then
+cluster 0's checks keep failing: its counter has passed the threshold (2, 3, … ≠ 1) and it never marks the host again
+until one of its checks succeeds.  `healthy_only_by_successes` / `unhealthy_only_by_failures` still hold (every
+transition is a threshold-completing result of the checker that made it).  Reproduced on the real clusters by the
+correspondence run (case `lc 1:1,1:1 0 h0=0,h1=0,r00f,r10s,r00f`); outside the property's statement, which speaks of
+one checker's result sequence. -/
+theorem shared_address_not_exact :
+    let w := runOps (World.init (fun _ => (1, 1)) (fun _ => ⟨false, false⟩))
+      [.setHosts 0 [0], .setHosts 1 [0], .result 0 0 .failure, .result 1 0 .success, .result 0 0 .failure, .result 0 0 .failure]
+    (w.words 0).active = false ∧ (w.chk 0 0).map (·.un) = some 3 ∧ (w.thr 0).1 = 1 := by
+  decide
+
 -- non-vacuity: a host shared by two clusters (thresholds u = 2, h = 2), driven unhealthy by cluster 0's checker, cluster 1
 -- drops it (nothing changes), removed and re-added in cluster 0 (new checker, counters restart, flag kept), healed by two
 -- consecutive successes of the new checker
